@@ -55,6 +55,8 @@ var (
 		}
 	}, func(v any) string {
 		switch x := v.(type) {
+		case nil:
+			return "nil"
 		case int64:
 			return strconv.FormatInt(x, 10)
 		case string:
@@ -68,6 +70,15 @@ var (
 		}
 		return "nil"
 	}}
+	// ETAnyNil: like ETAny plus the nil literal, which is a value of an interface-typed
+	// element (used for the sequence kinds only: the universal Association, Catalog and
+	// Map constructors cannot tell a nil argument from a missing one)
+	ETAnyNil = ElemType[any]{"any+nil", func(r *core.Rng) any {
+		if r.Chance(1, 4) {
+			return nil
+		}
+		return ETAny.Gen(r)
+	}, func(v any) string { return ETAny.Lit(v) }}
 )
 
 type c20ctx struct {
@@ -229,6 +240,9 @@ func RunC20Seq[V comparable](c *core.Ctx, et ElemType[V], kind string, maxQueue 
 			parsed := mod.ParseSource(x.cs["source"].(string)).(col.Sequential[any]).AsArray()
 			pv := make([]V, len(parsed))
 			for i, e := range parsed {
+				if e == nil {
+					continue // the nil literal: the zero value of an interface-typed V
+				}
 				pv[i] = e.(V)
 			}
 			vs = pv
@@ -708,4 +722,17 @@ func sprintAll[V any](vs []V) []string {
 		out[i] = fmt.Sprint(v)
 	}
 	return out
+}
+
+// ReproNilLiteral: the CDCN-source form with a nil literal and an interface-typed element.
+func ReproNilLiteral() (bool, string) {
+	var got []any
+	pan, _, msg := Try(func() { got = mod.List[any]("[nil, 1](List)").AsArray() })
+	if pan {
+		return true, "List[any](\"[nil, 1](List)\") panicked: " + msg
+	}
+	if len(got) != 2 || got[0] != nil || got[1] != int64(1) {
+		return true, fmt.Sprintf("List[any](\"[nil, 1](List)\") = %#v", got)
+	}
+	return false, "List[any](\"[nil, 1](List)\") = [nil 1]"
 }
